@@ -207,7 +207,7 @@ func BuildOverlay(cfg Config) (ov map[string][]byte, rep *NormReport) {
 		if !unknownPkgs[pk.PkgPath] || len(pk.Errors) > 0 || pk.Types == nil {
 			continue
 		}
-		n := &pkgNorm{pk: pk, rep: rep, fset: fset, renamed: ren.NewNames}
+		n := &pkgNorm{pk: pk, rep: rep, fset: fset, renamed: ren.NewNames, recvOld: ren.RecvOld}
 		files := n.run()
 		for name, src := range files {
 			overlay[name] = src
@@ -234,7 +234,27 @@ type pkgNorm struct {
 	parents map[ast.Node]ast.Node
 	counter int
 	kept    map[string]bool
-	renamed map[string]bool // inventory keys of functions that are renames of known ones
+	renamed map[string]bool   // inventory keys of functions that are renames of known ones
+	recvOld map[string]string // "pkg\tNewType" -> inventory name of a renamed type
+}
+
+// isKnown reports whether the declaration key belongs to the reviewed inventory (directly, as a
+// renamed function, or as a method of a renamed type).
+func (n *pkgNorm) isKnown(key string) bool {
+	if knownFuncs[key] || n.renamed[key] {
+		return true
+	}
+	i := strings.Index(key, "\t")
+	if i < 0 {
+		return false
+	}
+	pkg, name := key[:i], key[i+1:]
+	if j := strings.Index(name, "."); j >= 0 {
+		if old, ok := n.recvOld[pkg+"\t"+name[:j]]; ok {
+			return knownFuncs[pkg+"\t"+old+name[j:]]
+		}
+	}
+	return false
 }
 
 type edit struct {
@@ -445,7 +465,7 @@ func (n *pkgNorm) round() map[string][]edit {
 				continue
 			}
 			key := funcKey(n.pk.PkgPath, fd)
-			if knownFuncs[key] || n.renamed[key] || fd.Name.Name == "init" || fd.Name.Name == "main" || fd.Name.Name == "_" {
+			if n.isKnown(key) || fd.Name.Name == "init" || fd.Name.Name == "main" || fd.Name.Name == "_" {
 				continue
 			}
 			obj, _ := n.info.Defs[fd.Name].(*types.Func)
@@ -1809,7 +1829,7 @@ func (n *pkgNorm) removeDead() map[string][]edit {
 				continue
 			}
 			key := funcKey(n.pk.PkgPath, fd)
-			if knownFuncs[key] || n.renamed[key] || fd.Name.Name == "init" || fd.Name.Name == "main" {
+			if n.isKnown(key) || fd.Name.Name == "init" || fd.Name.Name == "main" {
 				continue
 			}
 			obj, _ := n.info.Defs[fd.Name].(*types.Func)
